@@ -71,6 +71,28 @@ pub enum Op {
     Heartbeat,
     AdvanceTime { secs: u32 },
     Restart,
+    /// macro: approve a 50 000 sat invoice for hash h, validate a holder commitment offering
+    /// 40 000 sat for it on one channel, sign a counterparty commitment offering 40 000 sat for it
+    /// on the other channel, then try to revoke on the first: the revocation is refused by the
+    /// payment re-validation (a refusal late in the request, after the state was looked up)
+    CrossPay { h: u8, swap: bool },
+}
+
+/// the primitive requests a macro op stands for (None: the op is primitive)
+pub fn expand_macro(op: &Op) -> Option<Vec<Op>> {
+    match op {
+        Op::CrossPay { h, swap } => {
+            let (a, b) = if *swap { (1u8, 0u8) } else { (0u8, 1u8) };
+            let sel = HSel { offered: true, h: *h, amt: 3, cltv: 0 };
+            Some(vec![
+                Op::Approve { h: *h & 1, amt: 0, keysend: false },
+                Op::HValidate { ch: a, d: 0, c: CSel::Add(sel.clone()), sig: SigKind::Valid, phase1: false },
+                Op::CSign { ch: b, d: 0, wrong_point: false, c: CSel::Add(sel), phase1: false },
+                Op::HRevoke { ch: a, d: 0 },
+            ])
+        }
+        _ => None,
+    }
 }
 
 fn d_strat() -> impl Strategy<Value = i8> {
@@ -117,15 +139,16 @@ pub fn op_strat(refusable: bool) -> BoxedStrategy<Op> {
         1 => ch().prop_map(|ch| Op::Forget { ch }),
         1 => Just(Op::Heartbeat),
         1 => prop_oneof![Just(5u32), Just(61u32), Just(4000u32)].prop_map(|secs| Op::AdvanceTime { secs }),
+        2 => (0u8..2, any::<bool>()).prop_map(|(h, swap)| Op::CrossPay { h, swap }),
     ]
     .boxed()
 }
 
-const AMTS: [u64; 3] = [10_000, 25_000, 400_000];
+const AMTS: [u64; 4] = [10_000, 25_000, 400_000, 40_000];
 const CLTVS: [u32; 3] = [1_000, 1_010, 2_000];
 fn mk_htlc(s: &HSel) -> Htlc {
     // disjoint hashes for the two directions (no routed payments through one channel)
-    Htlc { h: if s.offered { s.h & 1 } else { (s.h & 1) | 2 }, sat: AMTS[s.amt as usize % 3], cltv: if s.offered { CLTVS[s.cltv as usize % 3] } else { 1100 + CLTVS[s.cltv as usize % 3] } }
+    Htlc { h: if s.offered { s.h & 1 } else { (s.h & 1) | 2 }, sat: AMTS[if s.amt == 3 { 3 } else { s.amt as usize % 3 }], cltv: if s.offered { CLTVS[s.cltv as usize % 3] } else { 1100 + CLTVS[s.cltv as usize % 3] } }
 }
 
 pub const VALUE: u64 = 5_000_000;
@@ -195,6 +218,22 @@ impl Machine {
         Machine { w, st, blocks: vec![], next_dbid: 3, stub_pending: None, dead: false, onchain_ctr: 0 }
     }
 
+    /// Make the tracker's window of remembered headers full (MAX_REORG_SIZE entries), as it is on
+    /// any signer that has followed the chain for a day: bookkeeping that only happens on a full
+    /// window (dropping the oldest header) is then reachable.  The filler entries sit behind the
+    /// real ones and are never consulted (the machine only removes blocks it added itself).
+    pub fn fill_header_window(&mut self) {
+        let node = self.w.node.clone();
+        let _ = self.w.txn(|| {
+            let mut t = node.get_tracker();
+            let filler = t.tip.clone();
+            while t.headers.len() < 100 {
+                t.headers.push_back(filler.clone());
+            }
+            node.get_persister().update_tracker(&node.get_id(), &t).map_err(|_| Status::internal("persist"))
+        });
+    }
+
     fn nchan(&self) -> usize {
         self.st.len()
     }
@@ -261,6 +300,16 @@ impl Machine {
         let secp = self.w.secp.clone();
         let nchan = self.nchan();
         let node = self.w.node.clone();
+        if let Some(prims) = expand_macro(op) {
+            let mut v = vec![];
+            for p in prims.iter() {
+                v.extend(self.step(p));
+                if self.dead {
+                    break;
+                }
+            }
+            return v;
+        }
         match op {
             Op::HAdvance { ch, c } => {
                 let ci = *ch as usize % nchan;
@@ -608,6 +657,7 @@ impl Machine {
                 self.w.clock.set(t);
                 vec![Self::skip("advance-time")]
             }
+            Op::CrossPay { .. } => unreachable!("macro op expanded above"),
             Op::Restart => {
                 let r = self.w.restart();
                 if !r.is_ok() {
